@@ -279,7 +279,7 @@ pub fn run_c11(args: &Args) -> i32 {
     }
     // one Engine reused for unrelated positions (the CLI and the plugin keep one engine per game):
     // a completed search of position A, then position B with every expiry point
-    let reuse_runs = if std::env::var("VCHECK_SUBRUN").is_err() { c11_engine_reuse(&positions, args.tier, &report) } else { 0 };
+    let reuse_runs = if std::env::var("VCHECK_SUBRUN").is_err() && !reduced() { c11_engine_reuse(&positions, args.tier, &report) } else { 0 };
     runs += reuse_runs;
     // through the plugin boundary
     let (plugin_runs, plugin_positions) = if std::env::var("VCHECK_SUBRUN").is_err() { crate::plugin::c11_through_plugin(&positions, args.tier, &report) } else { (0, 0) };
